@@ -1454,7 +1454,9 @@ class Tree(_MutableMappingMixin, _Tree):
             sorted((v, k) for (k, v) in self.iteritems() if v >= min))
 
     def insert(self, key, value):
-        return bool(self._set(key, value, True)[0])
+        return bool(
+            self._set(self._to_key(key), self._to_value(value), True)[0]
+        )
 
 
 class TreeSet(_MutableSetMixin, _Tree):
